@@ -25,6 +25,19 @@ type replayFile struct {
 	} `json:"scenario"`
 }
 
+// shorter orders text scenarios: fewer tokens first, then by class string, then by member.
+func shorter(a, b *decreplay.Job) bool {
+	la, lb := len(a.B.Scn.Items), len(b.B.Scn.Items)
+	if la != lb {
+		return la < lb
+	}
+	ca, cb := a.B.Scn.HostileClass(), b.B.Scn.HostileClass()
+	if ca != cb {
+		return ca < cb
+	}
+	return a.Member < b.Member
+}
+
 func h32(s string) uint32 { h := fnv.New32a(); h.Write([]byte(s)); return h.Sum32() }
 
 func run(c *core.Ctx) {
@@ -166,9 +179,23 @@ func run(c *core.Ctx) {
 	perEp := map[string]int{}
 	kinds := map[string]int{}
 	errored, valued := 0, 0
+	// classes confirmed to kill a worker (spin, runaway allocation, fatal error):
+	// further inputs of the same entry point / mode / hostile class are skipped
+	fatalSeen := map[string]bool{}
+	clsKey := func(j *decreplay.Job) string {
+		return j.B.Scn.Ep + "|" + j.B.Scn.Mode + "|" + j.B.Scn.HostileClass()
+	}
+	pool.Skip = func(j *decreplay.Job) bool {
+		mu.Lock()
+		defer mu.Unlock()
+		return fatalSeen[clsKey(j)]
+	}
 	sink := func(j *decreplay.Job, r *decreplay.Result) {
 		mu.Lock()
 		defer mu.Unlock()
+		if r.Fatal != "" && !r.Flaky && r.Fatal != "protocol" {
+			fatalSeen[clsKey(j)] = true
+		}
 		if r.Fatal == "protocol" || r.ID == -1 {
 			c.Broken("worker protocol error: %s", r.Detail)
 			return
@@ -180,6 +207,9 @@ func run(c *core.Ctx) {
 		if len(r.Panic) > 7 && r.Panic[:7] == "HARNESS" {
 			c.Broken("harness error on %s: %s", j.B.Scn.Ep, r.Panic)
 			return
+		}
+		if r.Noise != "" {
+			c.Note(fmt.Sprintf("%s/%s %s: %s", j.B.Scn.Ep, j.B.Scn.Mode, j.B.Scn.HostileClass(), r.Noise))
 		}
 		c.Eval(j.Key(), r.Received > 0)
 		perEp[j.B.Scn.Ep+"/"+j.B.Scn.Mode]++
@@ -210,11 +240,30 @@ func run(c *core.Ctx) {
 			kinds[k]++
 			sig := decreplay.Signature(j, k)
 			key := fmt.Sprint(sig)
-			if a, ok := fails[key]; ok {
+			if fam := j.B.Scn.Fam; (fam == "text" || fam == "watch") && j.Mut == 0 {
+				// text parsers: one signature per (parser, obligation), named after the
+				// SHORTEST failing token sequence (all sequences up to the bound are
+				// enumerated, so the shortest one is canonical)
+				key = fam + "/" + j.B.Scn.Ep + "/" + k
+				if a, ok := fails[key]; ok {
+					a.count++
+					old := a.f.Scenario.(map[string]any)["job"].(*decreplay.Job)
+					if !shorter(j, old) {
+						continue
+					}
+					delete(fails, key)
+					fails[key] = &agg{count: a.count - 1}
+				}
+			}
+			if a, ok := fails[key]; ok && a.f.Signature != nil {
 				a.count++
 				continue
 			}
-			fails[key] = &agg{count: 1, f: core.Failure{Signature: sig,
+			cnt := 1
+			if a, ok := fails[key]; ok {
+				cnt = a.count + 1
+			}
+			fails[key] = &agg{count: cnt, f: core.Failure{Signature: sig,
 				Detail:   fmt.Sprintf("%s %s/%s [%s] verdict=%s: %s (returned error: %q)", k, j.B.Scn.Ep, j.B.Scn.Mode, j.B.Scn.HostileClass(), j.B.Verdict, r.Detail, r.Err),
 				Scenario: map[string]any{"kind": "Decoder", "job": j}}}
 		}
@@ -239,6 +288,7 @@ func run(c *core.Ctx) {
 	c.Set("real_calls_returning_error", errored)
 	c.Set("real_calls_returning_value", valued)
 	c.Set("worker_processes_started", pool.Spawned)
+	c.Set("jobs_skipped_class_already_fatal", pool.Skipped)
 	c.Set("max_alloc_bytes_conforming", maxAlloc)
 	c.Set("max_alloc_per_received_byte_conforming_inputs_over_4KiB", maxRatio)
 	c.Set("max_micros_conforming", maxMicros)
